@@ -29,7 +29,7 @@ CORRESPONDENCE_ONLY = ("kd-tree, Edgebreaker and bitstream < 2.0 streams (model:
                        "Spec.skipCheck on the implementation's outputs only")
 EXPLANATION = ("the theorems are about the sequential decoder model; the model is tied to the code by decoding every generated "
                "sequential stream under three skip sets on both sides")
-TIMEOUT = 3000
+TIMEOUT = 900
 CHECKS = {"skip", "corr", "valid"}
 F32 = G.DT["f32"]
 
